@@ -873,3 +873,82 @@ pub fn check_messages(w: &World, chain: &[ChainState], mode: Mode) -> Result<Msg
     }
     Ok(rep)
 }
+
+/// C18(b): the cached last-message pointer designates the head of the default order among
+/// the messages that are not invalidated.
+#[derive(Default)]
+pub struct PointerObserver {
+    pub checks: u64,
+    pub nontrivial: u64,
+    pub classes: BTreeSet<String>,
+}
+
+impl PointerObserver {
+    pub fn check_client(&mut self, w: &World, who: usize, what: &str) -> Result<(), Failure> {
+        if w.clients[who].mdk.is_none()
+            || w.group_state(who) != Some(mdk_storage_traits::groups::types::GroupState::Active)
+        {
+            return Ok(());
+        }
+        let f = w.full(who);
+        self.checks += 1;
+        let valid: Vec<&crate::fingerprint::MsgProj> =
+            f.msgs_created.iter().filter(|m| m.state != "epoch_invalidated").collect();
+        let head = valid.first();
+        let any_invalid = f.msgs_created.iter().any(|m| m.state == "epoch_invalidated");
+        if any_invalid {
+            self.classes.insert("pointer-checked-with-invalidated-messages".into());
+            self.nontrivial += 1;
+        }
+        let mut ties = false;
+        for p in f.msgs_created.windows(2) {
+            if p[0].created_at == p[1].created_at {
+                ties = true;
+            }
+        }
+        if ties {
+            self.classes.insert("pointer-checked-with-created-at-ties".into());
+            self.nontrivial += 1;
+        }
+        // the listing itself must be in the documented order
+        for p in f.msgs_created.windows(2) {
+            let ka = (p[0].created_at, p[0].processed_at, &p[0].id);
+            let kb = (p[1].created_at, p[1].processed_at, &p[1].id);
+            if ka <= kb {
+                return Err(Failure::new(
+                    "listing-not-in-documented-order",
+                    format!("after {what} at c{who}: {} listed before {}", &p[0].id[..8], &p[1].id[..8]),
+                ));
+            }
+        }
+        let want = match head {
+            Some(h) => (Some(h.id.clone()), Some(h.created_at), Some(h.processed_at)),
+            None => (None, None, None),
+        };
+        let got = (f.last.id.clone(), f.last.at, f.last.processed_at);
+        if want != got {
+            return Err(Failure::new(
+                "last-message-pointer-is-not-the-head",
+                format!(
+                    "after {what} at c{who} ({:?}, step {}): pointer (id {:?}, at {:?}, processed {:?}) but the first non-invalidated message of the default order is (id {:?}, at {:?}, processed {:?}); listing: {:?}",
+                    w.clients[who].kind,
+                    w.step,
+                    got.0.as_ref().map(|s| &s[..8]),
+                    got.1,
+                    got.2,
+                    want.0.as_ref().map(|s| &s[..8]),
+                    want.1,
+                    want.2,
+                    f.msgs_created.iter().map(|m| format!("{}@{}/{}:{}", &m.id[..6], m.created_at, m.processed_at, m.state)).collect::<Vec<_>>()
+                ),
+            ));
+        }
+        Ok(())
+    }
+}
+
+impl Observer for PointerObserver {
+    fn after_call(&mut self, w: &World, who: usize, what: &str) -> Result<(), Failure> {
+        self.check_client(w, who, what)
+    }
+}
